@@ -326,7 +326,7 @@ class FromInstant(Job):
                      "is the input; no expect/overflow panic")
         self.crate = "radix-common"
         self.max_unroll = 16
-        self.query_timeout_s = 420     # the Gregorian-reference equality on the year-wrap paths needs ~2 min in z3
+        self.query_timeout_s = 900     # hardest query: 50 s alone, 150 s with 6 parallel workers on a loaded machine
         self.cover_labels = ["ok", "err", "pre-1970", "leap day", "year > 9999"]
 
     def locate(self, prog):
